@@ -37,6 +37,7 @@ type rpStep struct {
 	ConfIRTs []string `json:"conf_irts,omitempty"`
 	Layout   int      `json:"layout,omitempty"`
 	Encrypt  bool     `json:"encrypt,omitempty"`
+	Pretty   bool     `json:"pretty_printed,omitempty"`
 	NoDest   bool     `json:"no_destination,omitempty"` // unsigned Response without a Destination attribute (legal: Destination is optional)
 	Methods  []string `json:"conf_methods,omitempty"`   // per confirmation: "" = bearer, else the method URN
 	// deliver
@@ -79,6 +80,7 @@ func genReplay(g *Rng, tier string) *Plan {
 			if st.Layout == 1 && g.Bool(0.4) {
 				st.NoDest = true
 			}
+			st.Pretty = g.Bool(0.25)
 			steps = append(steps, st)
 			nresps++
 		case c == 2:
@@ -259,6 +261,9 @@ func execReplay(t *testing.T, p *Plan) *Result {
 					m = st.Methods[ci]
 				}
 				a.Confs = append(a.Confs, ConfSpec{Method: m, NotOnOrAfter: i64(3_600_000), Recipient: spBase + "/saml/acs", InResponseTo: v})
+			}
+			if st.Pretty {
+				spec.Pretty, a.Pretty = true, true
 			}
 			spec.Assertions = []AsrtSpec{a}
 			r.spec = spec
